@@ -228,6 +228,15 @@ class Ctx:
             raise Machinery('TLC reported 0 states for %s/%s' % (module, cfg))
         return res
 
+    def check_proofs(self, module, theorems=''):
+        """TLAPS: unbounded companions of invariants TLC checks on small domains (spec/proofs)."""
+        n, wall = run_tlapm(module)
+        self.tlc_runs.append(dict(run='tlaps-proof %s%s' % (module, (' (' + theorems + ')') if theorems else ''),
+                                  distinct_states=0, states_generated=0, depth=0, wall_s=round(wall, 2),
+                                  actions=None, obligations_proved=n))
+        self.note('TLAPS proved %d obligations of spec/proofs/%s.tla%s' % (n, module, (': ' + theorems) if theorems else ''))
+        return n
+
     def expect_refuted(self, label, module, cfg, invariant, **kw):
         """Non-vacuity self-test: TLC must find a counterexample to `invariant`."""
         res = run_tlc(module, cfg, allow_violation=True, **kw)
@@ -321,6 +330,7 @@ class Ctx:
                 clauses={k: dict(cases=v['n'], violations=v['bad'], known_finding_cases=v['known'])
                          for k, v in sorted(self.clauses.items())},
                 tlc_runs=self.tlc_runs,
+                tlaps_obligations_proved=sum(r.get('obligations_proved', 0) for r in self.tlc_runs),
                 bounds=self.bounds,
                 known_findings_hit=sorted(self.known_hits),
                 notes=self.notes,
@@ -391,6 +401,33 @@ def validate_trace(module, cfg, events, *, env=None, timeout=900, deque=False, w
     bad = res.tagged('BAD')
     accepted = (res.rc == 0) and not res.postcondition_false and not res.violated and not bad
     return accepted, bad, res
+
+
+def run_tlapm(module, timeout=900):
+    """Check spec/proofs/<module>.tla with the TLA+ proof system (tlapm, SMT back end) in a scratch copy.
+    Returns (obligations_proved, wall).  Anything but 'All N obligations proved' is a machinery failure:
+    the proofs are about the specification, not about the implementation."""
+    src = os.path.join(SPEC, 'proofs', module + '.tla')
+    if not os.path.exists(src):
+        raise Machinery('missing proof module %s' % src)
+    d = tempfile.mkdtemp(prefix='tlapm_')
+    t0 = time.time()
+    try:
+        shutil.copy(src, d)
+        try:
+            p = subprocess.run(['tlapm', '--toolbox', '0', '0', module + '.tla'], cwd=d, stdout=subprocess.PIPE,
+                               stderr=subprocess.STDOUT, timeout=timeout, text=True)
+        except FileNotFoundError:
+            raise Machinery('tlapm not found on PATH')
+        except subprocess.TimeoutExpired:
+            raise Machinery('tlapm timeout after %ss on %s' % (timeout, module))
+        m = re.search(r'All (\d+) obligations? proved', p.stdout)
+        if p.returncode != 0 or not m:
+            raise Machinery('tlapm could not prove %s:\n%s' % (module, p.stdout[-1500:]))
+        return int(m.group(1)), time.time() - t0
+    finally:
+        shutil.rmtree(d, ignore_errors=True)
+
 
 
 def int_scaled(x, S):
